@@ -400,7 +400,7 @@ META = {
     "C12": {"text": "Bounded symbolic model checking of the implementation: the real consumerGroup code runs on directly constructed groups; consumer ids are symbolic pairwise-distinct strings (every relative order of ids is a solver case), partition counts, subscriptions and the join/leave/stream-delete history are choices explored exhaustively within the bound; after each operation the exactly-one-owner, subscribed-only, balance and two-replica-agreement assertions are checked.",
             "design_ref": "DESIGN.md §4 C12", "note": "bounds: 3 members, 2 streams with 1-3 and 1-2 partitions, 4 (quick) / 5 (thorough) operations; liveness timers: VerifC12Expiry (3 fixed ids, 4 (quick) / 6 (thorough) steps from join / poll / time passes 4 s or 6 s with timeout 10 s / coordinator moves away or back / leave, removal of an expired member may fail once); what the coordinator serves through GetAssignments (current epoch only, coordinator only) is observed after every step; the delivery order of StreamDeleted relative to later operations is explored by the C06 harness (async=1)", "technique": TECH},
     "C03": {"text": "Bounded symbolic model checking of the implementation: (a) the committed reader on the real log for every start offset, HW position and HW step across every segment layout reachable with the stated sizes; (b) a parked reader woken by the HW; (c) thorough tier: appender, cleaner-loop segment roller, HW setter and committed reader as goroutines under an exploring scheduler (pre-emption bound 1-2) with an online monitor: nothing above the HW, each committed message once in order, no lost wake-up, HW monotone, unique consecutive offsets in the log.",
-            "design_ref": "DESIGN.md §4 C03", "note": "bounds: 3-4 messages, segment size 40..200; schedules: 2 appends, 1 roll, 2 HW updates, 1 reader, pre-emption bound 1 (quick) / 2 (thorough), round-robin choice of the next goroutine when the running one blocks; a read-only toggle racing a reader and the HW catching up (VerifC03Readonly); two concurrent HW writers with symbolic values, an observer and a committed reader (VerifC03HWWriters); schedule counterexamples are replayed by concrete re-execution in the interpreter (replay_kind=interpreted) plus a native twin driver; more than one reader at a time is outside", "technique": TECH},
+            "design_ref": "DESIGN.md §4 C03", "note": "bounds: 3-4 messages, segment size 40..200; schedules: 2 appends, 1 roll, 2 HW updates, 1 reader, pre-emption bound 1 (quick) / 2 (thorough), round-robin choice of the next goroutine when the running one blocks; a read-only toggle racing a reader and the HW catching up (VerifC03Readonly); two concurrent HW writers with symbolic values, an observer and two committed readers - one from offset 0, one parked beyond the HW - (VerifC03HWWriters); schedule counterexamples are replayed by concrete re-execution in the interpreter (replay_kind=interpreted) plus a native twin driver; more than two readers at a time are outside", "technique": TECH},
     "C05": {"text": "Bounded symbolic model checking of the implementation: the real commit log runs over an in-memory file system whose every mutating effect (file write, mmap store, create, truncate, rename, remove, atomic replace) is counted; the crash point k is a symbolic variable, so within each workload every point between two effects is covered; after the crash the real New() recovers the directory and a full read-back, index point look-ups, HW, epoch history and a further append are checked. Counterexamples are confirmed by writing the crash-time image into a real directory and running the real recovery on it.",
             "design_ref": "DESIGN.md §4 C05", "note": "bounds: workloads of 2-3 appends (+HW checkpoint), Truncate/retention/compaction of 3 (quick) / 4 (thorough) messages in 1-4 segments, one crash per run; process-crash model (returned effects durable, single write/rename atomic); crash during recovery and torn writes outside", "technique": TECH},
     "C01": {"text": "Bounded symbolic model checking of the implementation: the real commit log (New/Append/AppendMessageSet/Truncate/Close+New/readers) runs symbolically over an in-memory file system; operation choice, payload bytes, timestamps, epochs, truncation offsets and the segment-size limit are symbolic; after every step the readable content is compared with an independent model.",
